@@ -104,6 +104,18 @@ def run(tier: str) -> int:
             for o in json.loads(out.read_text()):
                 o["d"] = nd  # the number of devices available is what must be reported
                 obs.append(o)
+    # layouts beyond 2^24 states per device, in a 64-bit process and in a process in JAX's default 32-bit mode
+    # (attributes only: integers that single precision cannot hold must not pass through floating point)
+    with C.Scratch("verif-c18big-") as d2:
+        big = [[2 ** 24 + 1, 1024, 1], [2 ** 24 + 5, 4, 1], [2 ** 25 + 3, 2048, 2], [3 * 2 ** 24 + 7, 1024, 3], [2 ** 24 + 1, 2 ** 24 + 1, 1]]
+        for mode in ("x64", "x32"):
+            out = d2 / f"big_{mode}.json"
+            p = C.run_python(["-m", "harness.workers.batching_worker"],
+                             extra_env={"VERIF_WORKER_NO_X64": "1"} if mode == "x32" else None,
+                             input_json={"points": big, "out": str(out)}, cwd=str(C.VERIF))
+            if p.returncode != 0:
+                raise C.MachineryError("batching worker failed: " + p.stderr[-2000:])
+            obs += json.loads(out.read_text())
     for o in obs:
         o.pop("error", None)
         o.pop("shape", None)
